@@ -5,6 +5,7 @@
 -/
 import CimbaModel.Ctx.Switch
 import CimbaModel.Ctx.CoLemmas
+import CimbaModel.Ctx.Examples
 
 namespace CimbaModel.Props.C03
 open CimbaModel.Ctx CimbaModel.Generated
@@ -352,5 +353,32 @@ theorem restart_runs_from_entry {s s' : St} {c : Cid} {m : Val} {log : List (Cid
   restart_effect h
 
 end bookkeeping
+
+/-! ## non-vacuity: the hypotheses of the machine theorems are satisfiable, the bookkeeping machine runs -/
+
+example : (exec switchCode exC).rbx = 0xb0b#64 ∧ (exec switchCode exC).rax = 99#64 ∧
+    (exec switchCode exC).rsp = 0x10008#64 ∧ (exec switchCode exC).mxcsr = 0x7f80#32 := by
+  have h := switch_roundtrip exA exC 99#64 (by decide) (by simp [al, exA]) (by simp [exA, savedAddrs, frameAddrs])
+    (fun _ _ => rfl) rfl rfl rfl
+    (by simp [exA, exC, savedAddrs, frameAddrs]) rfl (by simp [al, exC]) (by simp [al, exC, exA]) (by simp [al, exC, exA])
+  obtain ⟨h1, h2, -, h4, -, h6, -⟩ := h
+  exact ⟨h1 .rbx (by decide), h6, h4, h2⟩
+
+example : (exec trampCode (exec switchCode exS)).rip = 0x402000#64 ∧
+    (exec trampCode (exec switchCode exS)).rdi = 0x30000#64 ∧
+    (exec trampCode (exec switchCode exS)).rsi = 0x77#64 ∧
+    (exec trampCode (exec switchCode exS)).rsp.toNat % 16 = 8 := by
+  have h := first_entry exS 0x401000#64 0x402000#64 0x30000#64 0x77#64 0x403000#64 0x90000#64 (by decide)
+    (by simp [exS, exM, upd]) (by simp [exS, exM, upd, FrameAt, initFrame])
+    (by simp [exS, exA, frameWords, frameAddrs]) rfl (by simp [al, exS, exA]) (by simp [al, exS, exA])
+    (by simp [al, exS, exA])
+  exact ⟨h.2.2.2.1, h.2.2.2.2.1, h.2.2.2.2.2.1, h.2.2.2.2.2.2.2.1⟩
+
+open CimbaModel.Ctx.Co in
+example : (run init [.create 1 101, .create 2 102, .start 1 5, .start 2 6, .yield 7, .resume 2 8, .ret 9, .exit 4]).toOption.map (·.2)
+    = some [(0, .none), (0, .none), (0, .enter 1 101), (1, .enter 2 102), (2, .deliver 1 7 (some 3)),
+            (1, .deliver 2 8 (some 4)), (2, .deliver 1 9 (some 5)), (1, .deliver 0 4 (some 2))] := by
+  decide
+
 
 end CimbaModel.Props.C03
